@@ -480,6 +480,9 @@ func famRoundtrip(o *Out, r R, tier string) {
 	special = append(special,
 		cors.Config{Origins: []string{"http://[2606:4700:4700::1111]:8080", "http://[2001:db8::abcd]", "http://[2001:db8:aaaa:1111::100]:*"}},
 		cors.Config{Origins: []string{"https://example.com"}, RequestHeaders: []string{"X_Request_Id", "x-Trace^Span", "X-`Q~|"}, ResponseHeaders: []string{"X_Trace_Id", "x!#$%&'+.^"}, Methods: []string{"Pu_T", "q^Z"}})
+	for _, e := range extremeTrees(tier) { // maximal fan-out and maximal depth must survive the round trip too
+		special = append(special, cors.Config{Origins: e.pats})
+	}
 	for k := 0; k < 12; k++ {
 		c := cors.Config{Origins: []string{"http://" + genIPv6(r) + genPort(r, "http"), "http://" + genIPv6(r), genInsecureOrigin(r)}}
 		for j := 0; j < 1+k%3; j++ {
